@@ -82,6 +82,19 @@ theorem tlv_stream_roundtrip (tlvs : List TlvField) (vals : List (Option Val))
     fixed fields self-delimiting.  Breaks when msgs.rs renumbers / un-sorts / duplicates a TLV. -/
 theorem all_schemas_wf : ∀ s ∈ generatedSchemas, s.wf = true := by decide
 
+/-- coverage is pinned: exactly these macro-declared messages have a schema, exactly these two do not.
+    Breaks (instead of silently shrinking the claim) when msgs.rs gains a new `impl_writeable_msg!`
+    message or one of them starts using a field type / TLV kind the model cannot express. -/
+theorem coverage_pinned :
+    generatedSchemas.map (·.name) =
+      ["Stfu", "SpliceInit", "SpliceAck", "SpliceLocked", "TxAddOutput", "TxRemoveInput", "TxRemoveOutput",
+       "TxComplete", "TxInitRbf", "TxAckRbf", "TxAbort", "AnnouncementSignatures", "ChannelReestablish",
+       "ClosingSigned", "ClosingComplete", "ClosingSig", "CommitmentSigned", "FundingCreated", "FundingSigned",
+       "ChannelReady", "Shutdown", "UpdateFailHTLC", "UpdateFailMalformedHTLC", "UpdateFee", "UpdateFulfillHTLC",
+       "PeerStorage", "PeerStorageRetrieval", "StartBatch", "UpdateAddHTLC", "ReplyShortChannelIdsEnd",
+       "QueryChannelRange", "GossipTimestampFilter"] ∧
+    notCovered.map (·.1) = ["TxSignatures", "RevokeAndACK"] := by decide
+
 /-- the round trip, instantiated for every message schema translated from msgs.rs -/
 theorem generated_roundtrip (s : Schema) (hs : s ∈ generatedSchemas) (v : MsgVal) (hv : v.valid s = true) :
     s.decode (s.encode v) = .ok v := codec_roundtrip s v (all_schemas_wf s hs) hv
@@ -92,6 +105,133 @@ example : schema_StartBatch ∈ generatedSchemas := by decide
 example : (⟨[.bytes (List.replicate 32 7), .nat 3], [some (.nat 132)]⟩ : MsgVal).valid schema_StartBatch = true := by decide
 example : schema_StartBatch.decode (schema_StartBatch.encode ⟨[.bytes (List.replicate 32 7), .nat 3], [some (.nat 132)]⟩)
     = .ok ⟨[.bytes (List.replicate 32 7), .nat 3], [some (.nat 132)]⟩ := by decide
+
+/-- decoding only ever returns values of the schema (required TLVs present, integers in range, keys
+    and signatures valid, vectors of the announced length) — proved for schemas without
+    HighZeroBytesDroppedBigSize fields (`Schema.plain`; missing: the `hzd` case of
+    `Proofs.Codec.field_decode_spec`).  All generated message schemas are plain (`all_schemas_plain`). -/
+theorem decode_valid_partial (s : Schema) (b : Bytes) (v : MsgVal) (hwf : s.wf = true) (hp : s.plain = true)
+    (h : s.decode b = .ok v) : v.valid s = true := schema_decode_valid s b v hwf hp h
+
+/-- re-encoding any successfully decoded message yields bytes that decode to the same message
+    (same restriction as `decode_valid_partial`) -/
+theorem reencode_stable_partial (s : Schema) (b : Bytes) (v : MsgVal) (hwf : s.wf = true) (hp : s.plain = true)
+    (h : s.decode b = .ok v) : s.decode (s.encode v) = .ok v :=
+  codec_roundtrip s v hwf (schema_decode_valid s b v hwf hp h)
+
+theorem all_schemas_plain : ∀ s ∈ generatedSchemas, s.plain = true := by decide
+
+/-- re-encode stability for every message schema translated from msgs.rs, for every byte string -/
+theorem reencode_stable (s : Schema) (hs : s ∈ generatedSchemas) (b : Bytes) (v : MsgVal)
+    (h : s.decode b = .ok v) : s.decode (s.encode v) = .ok v :=
+  reencode_stable_partial s b v (all_schemas_wf s hs) (all_schemas_plain s hs) h
+-- non-vacuity: a byte string with an unknown odd TLV decodes, and its (different) re-encoding decodes to the same value
+example : schema_StartBatch.decode (List.replicate 32 7 ++ [0, 3, 1, 2, 0, 132, 3, 1, 9]) =
+    .ok ⟨[.bytes (List.replicate 32 7), .nat 3], [some (.nat 132)]⟩ := by decide
+
+/-! ## TLV stream rules (on arbitrary raw records `(type, value bytes)`, types and lengths < 2^64) -/
+
+/-- all records are encodable: type and length fit a BigSize -/
+def Framed (recs : List (Nat × Bytes)) : Prop := ∀ p ∈ recs, p.1 < 2 ^ 64 ∧ p.2.length < 2 ^ 64
+
+/-- on a well-framed stream the byte-level loop does exactly what `procRecs` does record by record -/
+theorem tlv_loop_by_records (tlvs : List TlvField) (recs : List (Nat × Bytes)) (h : Framed recs) :
+    decodeTlvStream tlvs (rawEncode recs) = procRecs tlvs none [] recs :=
+  tlvLoop_raw tlvs recs _ none [] h (by omega)
+
+/-- a stream containing a record of an even type the schema does not declare is rejected, wherever the
+    record stands and whatever surrounds it -/
+theorem unknown_even_rejected (tlvs : List TlvField) (r1 r2 : List (Nat × Bytes)) (t : Nat) (val : Bytes)
+    (hf : Framed (r1 ++ (t, val) :: r2)) (heven : t % 2 = 0) (hunk : ∀ f ∈ tlvs, f.typ ≠ t) :
+    ∃ e, decodeTlvStream tlvs (rawEncode (r1 ++ (t, val) :: r2)) = .error e := by
+  rw [tlv_loop_by_records tlvs _ hf]; exact procRecs_unknown_even tlvs t val r2 heven hunk r1 none []
+
+/-- … and the error is `UnknownRequiredFeature` when the record is reached in order with no required
+    field skipped -/
+theorem unknown_even_rejected_exact (tlvs : List TlvField) (r2 : List (Nat × Bytes)) (t : Nat) (val : Bytes)
+    (hf : Framed ((t, val) :: r2)) (heven : t % 2 = 0) (hunk : ∀ f ∈ tlvs, f.typ ≠ t)
+    (hreq : reqSkipped tlvs none t = false) :
+    decodeTlvStream tlvs (rawEncode ((t, val) :: r2)) = .error .UnknownRequiredFeature := by
+  rw [tlv_loop_by_records tlvs _ hf]; exact procRecs_unknown_even_exact tlvs t val r2 none [] heven hunk rfl hreq
+example : decodeTlvStream schema_ChannelReady.tlvs (rawEncode [(1, beEncode 8 5), (4, [9])]) = .error .UnknownRequiredFeature := by decide
+
+/-- a record of an odd type the schema does not declare is ignored: removing it from the stream (at any
+    position that keeps the types increasing) does not change the result — value or error -/
+theorem unknown_odd_ignored (tlvs : List TlvField) (r1 r2 : List (Nat × Bytes)) (t : Nat) (val : Bytes)
+    (hf : Framed (r1 ++ (t, val) :: r2)) (hodd : t % 2 = 1) (hunk : ∀ f ∈ tlvs, f.typ ≠ t)
+    (h1 : ∀ p ∈ r1, p.1 < t) (h2 : ∀ p ∈ r2, t < p.1) :
+    decodeTlvStream tlvs (rawEncode (r1 ++ (t, val) :: r2)) = decodeTlvStream tlvs (rawEncode (r1 ++ r2)) := by
+  have hf' : Framed (r1 ++ r2) := by
+    intro p hp
+    rcases List.mem_append.mp hp with hp | hp
+    · exact hf p (List.mem_append_left _ hp)
+    · exact hf p (List.mem_append_right _ (List.mem_cons_of_mem _ hp))
+  rw [tlv_loop_by_records tlvs _ hf, tlv_loop_by_records tlvs _ hf']
+  exact procRecs_unknown_odd tlvs t val r2 hodd hunk h2 r1 none [] h1 rfl
+example : decodeTlvStream schema_ChannelReady.tlvs (rawEncode [(1, beEncode 8 5), (3, [9, 9])]) = .ok [(1, .nat 5)] := by decide
+
+/-- two adjacent records whose types do not strictly increase (out of order, or a duplicate) make the
+    stream invalid, wherever they stand -/
+theorem out_of_order_rejected (tlvs : List TlvField) (r1 r2 : List (Nat × Bytes)) (t1 t2 : Nat) (v1 v2 : Bytes)
+    (hf : Framed (r1 ++ (t1, v1) :: (t2, v2) :: r2)) (hle : t2 ≤ t1) :
+    ∃ e, decodeTlvStream tlvs (rawEncode (r1 ++ (t1, v1) :: (t2, v2) :: r2)) = .error e := by
+  rw [tlv_loop_by_records tlvs _ hf]; exact procRecs_out_of_order tlvs t1 t2 v1 v2 r2 hle r1 none []
+example : decodeTlvStream schema_ChannelReestablish.tlvs (rawEncode [(5, List.replicate 33 0), (1, List.replicate 33 0)]) = .error .InvalidValue := by decide
+example : decodeTlvStream schema_ChannelReestablish.tlvs (rawEncode [(3, [1]), (3, [1])]) = .error .InvalidValue := by decide
+
+/-- whatever decodes is well framed: the stream is a concatenation of records `type · length · value` whose
+    values have exactly the declared length (the loop never hands a field decoder more than `length` bytes:
+    it is given `take length`) -/
+theorem decoded_stream_is_framed (tlvs : List TlvField) (b : Bytes) (out : List (Nat × Val))
+    (h : decodeTlvStream tlvs b = .ok out) : ∃ recs, b = rawEncode recs ∧ Framed recs :=
+  tlvLoop_ok_raw tlvs _ _ _ _ _ h
+
+/-- message level: after the fixed part, the rest of the buffer is the TLV stream -/
+theorem decode_after_fixed (s : Schema) (fx : List Val) (tl : Bytes) (hwf : s.wf = true)
+    (hfx : validFixed s.fixed fx = true) :
+    s.decode (encodeFixed s.fixed fx ++ tl) =
+      (match decodeTlvStream s.tlvs tl with
+       | .error e => .error e
+       | .ok acc => .ok ⟨fx, s.tlvs.map fun f => acc.lookup f.typ⟩) := by
+  simp only [Schema.decode, decodeFixed_roundtrip _ _ _ (schema_wf_parts hwf).1 hfx]
+  cases decodeTlvStream s.tlvs tl <;> rfl
+
+/-- message level: an unknown odd TLV record anywhere in the TLV part (types kept increasing) does not
+    change what the message decodes to -/
+theorem unknown_odd_ignored_msg (s : Schema) (fx : List Val) (r1 r2 : List (Nat × Bytes)) (t : Nat) (val : Bytes)
+    (hwf : s.wf = true) (hfx : validFixed s.fixed fx = true)
+    (hf : Framed (r1 ++ (t, val) :: r2)) (hodd : t % 2 = 1) (hunk : ∀ f ∈ s.tlvs, f.typ ≠ t)
+    (h1 : ∀ p ∈ r1, p.1 < t) (h2 : ∀ p ∈ r2, t < p.1) :
+    s.decode (encodeFixed s.fixed fx ++ rawEncode (r1 ++ (t, val) :: r2)) =
+    s.decode (encodeFixed s.fixed fx ++ rawEncode (r1 ++ r2)) := by
+  rw [decode_after_fixed s fx _ hwf hfx, decode_after_fixed s fx _ hwf hfx,
+    unknown_odd_ignored s.tlvs r1 r2 t val hf hodd hunk h1 h2]
+
+/-- message level: an unknown even TLV record anywhere in the TLV part makes the message undecodable -/
+theorem unknown_even_rejected_msg (s : Schema) (fx : List Val) (r1 r2 : List (Nat × Bytes)) (t : Nat) (val : Bytes)
+    (hwf : s.wf = true) (hfx : validFixed s.fixed fx = true)
+    (hf : Framed (r1 ++ (t, val) :: r2)) (heven : t % 2 = 0) (hunk : ∀ f ∈ s.tlvs, f.typ ≠ t) :
+    ∃ e, s.decode (encodeFixed s.fixed fx ++ rawEncode (r1 ++ (t, val) :: r2)) = .error e := by
+  obtain ⟨e, he⟩ := unknown_even_rejected s.tlvs r1 r2 t val hf heven hunk
+  exact ⟨e, by rw [decode_after_fixed s fx _ hwf hfx, he]⟩
+example : schema_StartBatch.decode (List.replicate 32 7 ++ [0, 3] ++ rawEncode [(2, [])]) = .error .UnknownRequiredFeature := by decide
+
+/-! ## totality -/
+
+/-- `decodeTlvStream` is total by construction (structural recursion on fuel = input length + 1); the
+    out-of-fuel answer is never taken: any larger fuel gives the same result -/
+theorem decode_total (tlvs : List TlvField) (b : Bytes) (k : Nat) :
+    decodeTlvStream tlvs b = tlvLoop tlvs (b.length + 1 + k) none [] b := decodeTlvStream_fuel tlvs b k
+example : decodeTlvStream [] [0xfd] = .error .ShortRead := by decide
+
+/-- a field decoder consumes a prefix of its input and returns the untouched rest -/
+theorem field_decode_consumes_prefix (ty : FieldTy) (b : Bytes) (v : Val) (r : Bytes)
+    (h : ty.decode b = .ok (v, r)) : ∃ pre, b = pre ++ r := field_decode_suffix ty b v r h
+
+/-- the fixed part of a message is a prefix of the input; the TLV stream is decoded from the rest only -/
+theorem fixed_part_consumes_prefix (ts : List FieldTy) (b : Bytes) (vs : List Val) (r : Bytes)
+    (h : decodeFixed ts b = .ok (vs, r)) : ∃ pre, b = pre ++ r := decodeFixed_suffix ts b vs r h
+example : decodeFixed [.uint 2, .bytes16] [0, 1, 0, 1, 7, 8] = .ok ([.nat 1, .bytes [7]], [8]) := by decide
 
 /-! ## wire level -/
 
